@@ -5,7 +5,6 @@
 
 use std::cell::RefCell;
 use std::collections::BTreeMap;
-use std::sync::Once;
 
 pub const LIMIT: u64 = 24;
 const PANIC_PREFIX: &str = "rv-fuel-exhausted:";
@@ -19,35 +18,35 @@ fn is_doubling_loop(name: &str) -> bool {
     name.ends_with(".tail") || name == "cache.last_seq" || name == "cache.last_message_backscan"
 }
 
+/// All hook points go through the dispatcher in sched.rs; it forwards `scan.*` here.
 pub fn install() {
-    static ONCE: Once = Once::new();
-    ONCE.call_once(|| {
-        rip_kernel::verif::set(std::sync::Arc::new(|point: &str, ctx: &str| {
-            if point != "scan.iter" && point != "scan.enter" {
-                return;
-            }
-            let active = ACTIVE.with(|a| *a.borrow());
-            if !active {
-                return;
-            }
-            if point == "scan.enter" {
-                // a new instance of the loop: its fuel starts over
-                COUNTS.with(|c| {
-                    c.borrow_mut().insert(ctx.to_string(), 0);
-                });
-                return;
-            }
-            let n = COUNTS.with(|c| {
-                let mut c = c.borrow_mut();
-                let e = c.entry(ctx.to_string()).or_insert(0);
-                *e += 1;
-                *e
-            });
-            if is_doubling_loop(ctx) && n > LIMIT {
-                panic!("{PANIC_PREFIX}{ctx}");
-            }
-        }));
+    crate::sched::install();
+}
+
+pub fn on_point(point: &str, ctx: &str) {
+    let active = ACTIVE.with(|a| *a.borrow());
+    if !active {
+        return;
+    }
+    if point == "scan.enter" {
+        // a new instance of the loop: its fuel starts over
+        COUNTS.with(|c| {
+            c.borrow_mut().insert(ctx.to_string(), 0);
+        });
+        return;
+    }
+    if point != "scan.iter" {
+        return;
+    }
+    let n = COUNTS.with(|c| {
+        let mut c = c.borrow_mut();
+        let e = c.entry(ctx.to_string()).or_insert(0);
+        *e += 1;
+        *e
     });
+    if is_doubling_loop(ctx) && n > LIMIT {
+        panic!("{PANIC_PREFIX}{ctx}");
+    }
 }
 
 #[derive(Debug, Clone)]
